@@ -115,6 +115,9 @@ probes!(
     debug_checked,
     heap_checked,
     laws_checked,
+    bulk_push,
+    bulk_items,
+    clear_after_65536_items,
     huge_zst_item_pushed,
     push_after_offsets_exceed_u32,
     row_longer_than_all_earlier,
@@ -376,6 +379,8 @@ fn at(mut f: Fail, what: &str, i: usize) -> Fail {
 }
 
 const OOB_OFFSETS: [usize; 4] = [0, 1, 2, 7];
+/// absolute positions near usize::MAX: `start + index` must not wrap around into the region
+const OOB_HUGE: [usize; 5] = [usize::MAX, usize::MAX - 1, usize::MAX - 2, usize::MAX - 5, usize::MAX / 2 + 1];
 
 impl<R, O> Obs for SliceRegion<R, O>
 where
@@ -446,8 +451,7 @@ where
             }
         }
         if cx.oob && cx.depth == 0 {
-            for off in OOB_OFFSETS {
-                let i = n + off;
+            for i in OOB_OFFSETS.iter().map(|off| n + off).chain(OOB_HUGE.iter().copied()) {
                 let r = catch(|| {
                     let _ = item.get(i);
                 });
@@ -562,8 +566,7 @@ where
             }
         }
         if cx.oob && cx.depth == 0 {
-            for off in OOB_OFFSETS {
-                let i = n + off;
+            for i in OOB_OFFSETS.iter().map(|off| n + off).chain(OOB_HUGE.iter().copied()) {
                 let r = catch(|| {
                     let _ = item.get(i);
                 });
